@@ -69,6 +69,23 @@ def collect_samples(prop, seed, pool, n=2):
     return samples
 
 
+def _spaces(prop, cover):
+    """Coverage of the systematically enumerated sub-spaces (C13): distinct members executed."""
+    if prop != "C13":
+        return {}
+    from . import plan_c13
+
+    sizes = {"mut": len(plan_c13.MUT_SPACE), "seq": plan_c13.SEQ_TOTAL, "entry": plan_c13.ENTRY_TOTAL}
+    seen = {k: 0 for k in sizes}
+    for tag in cover:
+        seen[tag.split(":")[0]] += 1
+    return {k: {"executed_distinct": seen[k], "size": sizes[k],
+                "what": {"mut": "complete chain shapes x single deletion/duplication/transposition",
+                         "seq": "all call sequences of length <= 5 over the Rule/LayerRule/DiagramRule vocabularies",
+                         "entry": "entry-point option combinations x module placement x entry point"}[k]}
+            for k in sizes}
+
+
 def write(prop, tier, seed, run, out, samples, known_hit, reported, source):
     os.makedirs(os.path.join(HERE, "evidence"), exist_ok=True)
     wall = out["wall"]
@@ -102,6 +119,8 @@ def write(prop, tier, seed, run, out, samples, known_hit, reported, source):
         "workers": run.W,
         "replicas_per_plan": run.k,
         "budget_exhausted": out["budget_exhausted"],
+        "cross_seed_divergences": out.get("cross_seed_divergences", 0),
+        "systematic_spaces": _spaces(prop, out.get("cover") or ()),
         "known_findings_matched": [{"signature": s, "count": n} for s, n in known_hit],
         "violation_signatures": [s for s, _, _ in reported],
         "exhaustive": False,
